@@ -8,7 +8,7 @@ from . import C07
 
 ID = 'C11'
 PROFILES = ['dev']
-BOUNDS = {'text level': 'through the real lexer + parser + interpreter: poetic number texts of <= 2 (thorough 3) elements out of 26 spellings (quick: all 1-element and every 4th 2-element text; thorough: all 2-element and every 8th 3-element text) (word lengths 1, 2, 3, 9, 10, 11, 20; apostrophes inside / leading / trailing; \'s / \'re suffixes; hyphens; keywords as words; capitals; non-ASCII letters), each optionally followed by a period or a comma, in `X is ...` and `Rock .. like ...`: the printed number equals the numeral the words spell (exact for integers, <= 4 ulp otherwise); `X says <text>` with 0..=2 (thorough 3) symbolic characters (any of ASCII ∪ R except line feed, quote, open parenthesis): the literal is exactly the text; 27 right-hand sides starting with a literal word / negative number are ordinary expressions',
+BOUNDS = {'text level': 'through the real lexer + parser + interpreter: poetic number texts of <= 2 (thorough 3) elements out of 26 spellings (quick: all 1-element and every 4th 2-element text; thorough: all 2-element and every 8th 3-element text) (word lengths 1, 2, 3, 9, 10, 11, 20; apostrophes inside / leading / trailing; \'s / \'re suffixes; hyphens; keywords as words; capitals; non-ASCII letters), each optionally followed by a period or a comma, in `X is ...` and `Rock .. like ...`: the printed number equals the numeral the words spell (exact for integers, <= 4 ulp otherwise); long literals of 3..=16 (thorough 40) words with 4 period placements; `X says <text>` with 0..=2 (thorough 3) symbolic characters (any of ASCII ∪ R except line feed, quote, open parenthesis): the literal is exactly the text; 27 right-hand sides starting with a literal word / negative number are ordinary expressions',
           'digit rule': 'literals of 1..=6 elements, every element kind symbolic (Word / WordSuffix / Dot) under the parser\'s well-formedness (no leading suffix, no suffix right after a period), word lengths symbolic in 0..=40 (stub for word_len, which is checked separately)',
           'word_len': 'words of 0..=6 symbolic characters over {a, apostrophe, é}',
           'accuracy': 'literals of 1..=3 (thorough 4) digit-bearing words, every digit symbolic 0..=9, the period at every position: |value - numeral| <= 4 ulp, exact when there is no fractional part',
@@ -169,7 +169,7 @@ def poetic_elements():
     """[(text, letters counted)] element spellings: plain words of several lengths (incl. multiples of 10), apostrophes inside / leading /
     trailing (not counted), 's / 're suffixes (counted with their word), hyphens (count as letters), keywords as words, capitals, non-ASCII letters"""
     el = [(w, n) for n, w in WORDS.items()]
-    el += [("don't", 4), ("rock'n'roll", 9), ("'cause", 5), ("lovin'", 5), ("rockstar's", 9), ("we're", 4), ("it's", 3), ('ice-cold', 8), ('all-consuming', 13), ('a-b', 3),
+    el += [("don't", 4), ("rock'n'roll", 9), ("'cause", 5), ("lovin'", 5), ("rockstar's", 9), ("we're", 4), ("it's", 3), ('ice-cold', 8), ('all-consuming', 13), ('a-b', 3), ('know-it-all', 11), ('rock-and-roll', 13), ('grown-up', 8), ('up-and-down', 11),
            ('nothing', 7), ('with', 4), ('is', 2), ('taking', 6), ('Tommy', 5), ('ROCK', 4), ('éé', 2), ('mütley', 6), ('Ünder', 5)]
     return el
 
@@ -192,6 +192,20 @@ def poetic_texts(maxlen):
                     digits += str(c[1] % 10)
                     if p == '.' and not seen_dot: digits += '.'; seen_dot = True
                 out.append((' '.join(words), digits))
+    return out
+
+
+def long_texts(nmax):
+    """literals of 3..=nmax words with non-zero digits (word i has 1 + (3 i mod 9) letters), without a period and with the period after the
+    first / the middle / all but the last word: every power of ten up to 10^(nmax-1) and down to 10^-(nmax-1) is exercised"""
+    out = []
+    for n in range(3, nmax + 1):
+        lens = [1 + (3 * i + n) % 9 for i in range(n)]
+        words = ['abcdefghi'[:k] for k in lens]
+        for d in sorted({None, 1, n // 2, n - 1} - {0, n}, key=lambda x: -1 if x is None else x):
+            ws = list(words); digits = ''.join(str(k) for k in lens)
+            if d is not None: ws[d - 1] += '.'; digits = digits[:d] + '.' + digits[d:]
+            out.append((' '.join(ws), digits))
     return out
 
 
@@ -293,6 +307,8 @@ def jobs(ctx, tier):
     texts = (poetic_texts(1) + poetic_texts(2)[66::4]) if tier == 'quick' else (poetic_texts(2) + poetic_texts(3)[5214::8])
     for k, ch in enumerate(chunks(texts, 80)):
         js.append(Job(f'text/is/{k}', h_poetic_text, (mir, ch, 'is'), witness=['text-done'], str_mode='bounded', fuel=20_000_000, weight=20))
+    for k, ch in enumerate(chunks(long_texts(16 if tier == 'quick' else 40), 8)):
+        js.append(Job(f'text/long/{k}', h_poetic_text, (mir, ch, 'is'), witness=['text-done'], str_mode='bounded', fuel=20_000_000, weight=20))
     for k, ch in enumerate(chunks(texts[::7], 80)):
         js.append(Job(f'text/like/{k}', h_poetic_text, (mir, ch, 'like'), witness=['text-done'], str_mode='bounded', fuel=20_000_000, weight=20))
     from .lexcommon import CLASS_NAMES
